@@ -33,6 +33,25 @@ func NamedCaptures(regexString string) (map[string][]string, error) {
 	return extracts, nil
 }
 
+// HasAssertion reports whether the expression contains an empty-width assertion
+// (^, $, \b, ...), i.e. whether a match depends on the data around it.
+func HasAssertion(regexString string) (bool, error) {
+	r, err := syntax.Parse(regexString, syntax.Perl)
+	if err != nil {
+		return false, err
+	}
+	p, err := syntax.Compile(r.Simplify())
+	if err != nil {
+		return false, err
+	}
+	for _, i := range p.Inst {
+		if i.Op == syntax.InstEmptyWidth {
+			return true, nil
+		}
+	}
+	return false, nil
+}
+
 func ConstantSuffix(regexString string) ([]byte, error) {
 	r, err := syntax.Parse(regexString, syntax.Perl)
 	if err != nil {
